@@ -348,6 +348,16 @@ func main() {
 		}
 		onOwner = onOwner && ok
 	}
+	// every entry (public API and RESP handlers) goes through those three functions
+	ahGo := parse("internal/dmap/atomic_handlers.go")
+	for fn, callee := range map[string]string{"incrDecrCommon": "dm.atomicIncrDecr(", "getPutCommandHandler": "dm.getPut(", "incrByFloatCommandHandler": "dm.atomicIncrByFloat("} {
+		fd := funcDecl(ahGo, "Service", fn)
+		onOwner = onOwner && fd != nil && strings.Contains(src(fd), callee)
+	}
+	for fn, callee := range map[string]string{"Incr": "dm.atomicIncrDecr(", "Decr": "dm.atomicIncrDecr(", "GetPut": "dm.getPut(", "IncrByFloat": "dm.atomicIncrByFloat("} {
+		fd := funcDecl(atomGo, "DMap", fn)
+		onOwner = onOwner && fd != nil && strings.Contains(src(fd), callee)
+	}
 	ao := funcDecl(atomGo, "DMap", "atomicOwner")
 	onOwner = onOwner && ao != nil && strings.Contains(src(ao), "PartitionByHKey(hkey).Owner()") &&
 		strings.Contains(src(ao), "!member.CompareByName(dm.s.rt.This())")
@@ -404,6 +414,40 @@ func main() {
 		strings.Contains(src(sfe), "isKeyExpired(ttl) || dm.isKeyIdleOnFragment(hkey, f)") &&
 		strings.Contains(src(sfe), "dm.deleteOnCluster(hkey, key, f)")
 	addBool("eviction_scan_deletes_expired_or_idle_on_cluster", scanOK, "scanFragmentForEviction resolves the DMap by its own name and deletes expired or idle entries with deleteOnCluster")
+
+	// ---- structural facts: routing table (C13)
+	distGo := parse("internal/cluster/routingtable/distribute.go")
+	ordered := func(t string, parts ...string) bool {
+		pos := 0
+		for _, p := range parts {
+			i := strings.Index(t[pos:], p)
+			if i < 0 {
+				return false
+			}
+			pos += i + len(p)
+		}
+		return true
+	}
+	dp := funcDecl(distGo, "RoutingTable", "distributePrimaryCopies")
+	db := funcDecl(distGo, "RoutingTable", "distributeBackups")
+	shape := dp != nil && db != nil &&
+		ordered(src(dp), "GetPartitionOwner(int(partID))", "len(owners) == 0", "FindMemberByName(owner.Name)", "!owner.CompareByID(current)",
+			"NewLengthOfPart(partID)", "count == 0", "owner.CompareByID(newOwner.(discovery.Member))", "return append(owners, newOwner.(discovery.Member))") &&
+		ordered(src(db), "r.getReplicaOwners(partID)", "newOwners = newOwners[1:]", "len(owners) == 0", "FindMemberByName(backup.Name)", "!backup.CompareByID(cur)",
+			"NewLengthOfPart(partID).SetReplica()", "count != 0", "owners = append(owners[:i], owners[i+1:]...)", "for _, newOwner := range newOwners", "owner.CompareByID(newOwner.(discovery.Member))")
+	addBool("distribute_prunes_then_appends_ring_owners", shape, "distributePrimaryCopies / distributeBackups: prune departed or re-joined members, prune owners that report zero keys, move the ring's owner(s) to the end")
+	rtGo := parse("internal/cluster/routingtable/routingtable.go")
+	opGo := parse("internal/cluster/routingtable/operations.go")
+	discGo := parse("internal/discovery/discovery.go")
+	ur := funcDecl(rtGo, "RoutingTable", "updateRouting")
+	vr := funcDecl(opGo, "RoutingTable", "verifyRoutingTable")
+	gc := funcDecl(discGo, "Discovery", "GetCoordinator")
+	gm := funcDecl(discGo, "Discovery", "GetMembers")
+	coord := ur != nil && vr != nil && gc != nil && gm != nil &&
+		ordered(src(ur), "!r.discovery.IsCoordinator()", "return", "r.fillRoutingTable()", "r.updateRoutingTableOnCluster()", "r.processLeftOverDataReports(reports)") &&
+		strings.Contains(src(vr), "coordinator.CompareByID(myCoordinator)") &&
+		strings.Contains(src(gc), "return members[0]") && strings.Contains(src(gm), "members[i].Birthdate < members[j].Birthdate")
+	addBool("only_oldest_member_computes_and_receivers_verify_sender", coord, "updateRouting runs on the coordinator only (oldest member by birthdate), receivers reject a table whose sender is not their coordinator")
 
 	// ---- structural facts: pub/sub (C14)
 	psGo := parse("internal/pubsub/pubsub.go")
